@@ -23,11 +23,18 @@ MANIFEST = {
             "0 / D-len / (D-len)/2 with D the longest delay+length and changes nothing else, a right-aligned delay is "
             "never negative on success. Constants and patterns (raster rounding, t_eps, digits, spec order) are re-read "
             "from the source on every run; the extracted model is run against the implementation on all gradient kinds x "
-            "delays x every raster cut time x factors x mixed-event alignments; mod_grad_axis/flip_grad_axis are checked by "
-            "decoding every block before/after (cold and warm cache), arguments are snapshotted.",
+            "delays x every raster cut time x factors x mixed-event alignments. mod_grad_axis/flip_grad_axis are modelled "
+            "on the sequence store (Model/ModAxis.v): every block decodes to the input's decode with the gradient on that "
+            "channel rescaled and nothing else changed, shared ids are refused without change, key collisions created by "
+            "the rescaling are invisible to decode; the model is run on the real store of generated sequences (library, "
+            "key map, cache) and the implementation is decoded before/after (cold and warm cache). For off-raster "
+            "trapezoids split_gradient's parts add up to the rounded trapezoid iff the rounding keeps the total duration; "
+            "the discrepancy (ramp-down displaced by total - rounded total) is proved and checked. Arguments are "
+            "snapshotted; functions with an optional system are also called through the library default "
+            "(Opts.set_as_default).",
     'note': 'Trusted: Coq kernel; translator patterns; extraction + driver; binary64 arithmetic is outside the model '
-            '(tolerance 1e-9 relative); mod_grad_axis/flip_grad_axis and the non-modification of arguments are checked '
-            'by the harness only (aliasing is not expressible in the model). KF-9 (arbitrary gradients in '
+            '(tolerance 1e-9 relative); the non-modification of arguments is checked by the harness only (aliasing is '
+            'not expressible in the model). KF-9 (arbitrary gradients in '
             'split_gradient_at) and split_gradient on a triangle are recorded findings.',
     'technique': 'Rocq/Coq proof over a Gallina model (piecewise-linear algebra, induction over corner lists / event '
                  'lists) + extraction-based correspondence + exact-Fraction rendering oracle',
@@ -43,13 +50,14 @@ RULE = ('streams: scale (all kinds x 12 factors), split3 (trapezoids on/off rast
         'Oracle = exact-Fraction rendering at corner times, +-raster/8, midpoints; field-by-field equality of everything '
         'else; deepcopy snapshots of the arguments. non-trivial = the call returned parts / events (not an error)')
 TRUSTED = ['binary64 arithmetic of NumPy is outside the model: sampled by correspondence (tolerance 1e-9*scale+1e-12)',
-           'mod_grad_axis/flip_grad_axis and "inputs are not modified": checked on the implementation only',
+           '"inputs are not modified": checked on the implementation only',
+           'mod_grad_axis model: library rows travel as shortest-decimal rationals; products are compared to 1e-12',
            'np.interp is modelled as linear interpolation with end-value extension']
 ASSUMPTIONS = ['cut times exactly at the start of the gradient (t = delay) or at t <= 0 are boundary inputs: either an '
                'error or a correct split is accepted',
                'split_gradient_at on extended trapezoids assumes the C05 rule (non-zero first value => zero delay)',
-               'off-raster trapezoids: only model agreement and non-modification are checked (the parts then add up '
-               'to the raster-rounded trapezoid only when the total duration is unchanged by the rounding)']
+               'off-raster trapezoids: the parts are compared with the raster-rounded trapezoid plus the proved '
+               'displacement of the ramp-down (C18_split_discrepancy)']
 
 MAXG = 2e6
 MAXS = 2e10
